@@ -391,6 +391,11 @@ def explore(job: dict) -> dict:
 
 
 def run(ctx: Ctx, col: Collector) -> None:
+    import os
+
+    # a case here is 50-98 virtual hours of discovery polling (up to ~40 s of wall time on a loaded machine): its wall-clock budget
+    # (vclock.CaseBudget: over it a case is abandoned as inconclusive) is set well above that
+    os.environ["VERIF_CASE_WALL_S"] = str(max(float(os.environ.get("VERIF_CASE_WALL_S", "0")), 240.0))
     ctx.rule = RULE
     ctx.assumptions = [
         "the controller is a reference model written for this check (one conforming evohome; reply formats taken from the corpus); it answers 0005/000C and the common state requests and stays silent on the rest",
